@@ -1,7 +1,7 @@
 (* C10 - Policy type always reflects its elements; invalid definitions are rejected.
    Only statements, `exact`, Print Assumptions and non-vacuity examples live here. *)
 From Coq Require Import ZArith NArith List Bool.
-From Vakt Require Import Base.PyMonad Base.PyVal Model.Rules Model.Policy Proofs.PolicyP.
+From Vakt Require Import Base.PyMonad Base.PyVal Model.Rules Model.Policy Proofs.PolicyP Proofs.PolicyJsonP.
 Import ListNotations.
 
 (* every successful construction establishes the invariant: the stored type is the type implied
@@ -75,3 +75,13 @@ Proof.
   eexists. split; [vm_compute; reflexivity|]. split; [reflexivity|]. split; [reflexivity|].
   eexists. split; [vm_compute; reflexivity|]. vm_compute. discriminate.
 Qed.
+
+(* serialising (to_json -> Policy._data rewrites tuple-valued attributes of the live object into lists, not through
+   __setattr__) keeps the invariant, at any point of any history of assignments *)
+Theorem C10_serialising_keeps_invariant : forall s, policy_inv s -> policy_inv (data_of s).
+Proof. exact data_of_inv. Qed.
+Print Assumptions C10_serialising_keeps_invariant.
+
+Theorem C10_history_with_serialising : forall a steps s, ctor a = Ok s -> policy_inv (fold_left run_pstep steps s).
+Proof. intros a steps s H. apply pstep_history_inv. exact (ctor_inv a s H). Qed.
+Print Assumptions C10_history_with_serialising.
